@@ -315,6 +315,18 @@ pub fn run(plan: SPlan, shards: usize, outdir: &str, replay: Option<String>) {
                 }
                 i3.rooms = Some(rs);
                 variants.push((String::from("arbitrary_rooms"), i3));
+                // rooms that starve one course: every room below its minimal room need (a fixed course if there is one): the course can
+                // never take place, a fixed one makes the instance infeasible with this list
+                let fixed: Vec<usize> = (0..inst.courses.len()).filter(|&c| inst.courses[c].fixed).collect();
+                let t = if !fixed.is_empty() && r.chance(3, 4) { fixed[r.below(fixed.len())] } else { r.below(inst.courses.len()) };
+                let tc = &inst.courses[t];
+                let need = (f32::from_bits(tc.obits) + f32::from_bits(tc.fbits) * (tc.min + tc.instr.len()) as f32).ceil() as usize;
+                if need > 0 {
+                    let mut i4 = inst.clone();
+                    let n = inst.courses.len() + r.below(2);
+                    i4.rooms = Some((0..n).map(|_| if r.chance(1, 2) { need - 1 } else { r.below(need) }).collect());
+                    variants.push((String::from("starved_rooms"), i4));
+                }
             }
             for (vname, vi) in variants.iter() {
                 let vbf = if vi.rooms.is_none() { bf.clone() } else { None };
